@@ -14,7 +14,8 @@ run_prop() {
     wt="/tmp/sr_${n}_$$"
     git -C /repo worktree add -f "$wt" HEAD > /dev/null 2>&1
     if ! git -C "$wt" apply "$d/patch.diff" 2>/dev/null; then echo "$n PATCH-DOES-NOT-APPLY" >> "$out/result.txt"; else
-      ( cd "$verif" && VERIF_BUILD="$verif/build/sr_$p" VERIF_EVIDENCE="$verif/build/sr_$p/evidence" VERIF_REPO="$wt" \
+      mkdir -p "$verif/build/sr_$p"; rm -rf "$verif/build/sr_$p/coq"; cp -r "$verif/coq" "$verif/build/sr_$p/coq"
+      ( cd "$verif" && VERIF_BUILD="$verif/build/sr_$p" VERIF_COQ="$verif/build/sr_$p/coq" VERIF_EVIDENCE="$verif/build/sr_$p/evidence" VERIF_REPO="$wt" \
           timeout 3000 ./check "$p" "$tier" > "$out/$n.log" 2>&1 ); rc=$?
       fi_n=$(grep -c "^VIOLATION" "$out/$n.log"); nf=$(grep -c "no-failing-input-found" "$out/$n.log")
       echo "$n rc=$rc violations=$fi_n of-which-no-failing-input=$nf" >> "$out/result.txt"
@@ -28,6 +29,4 @@ echo $props | tr ' ' '\n' | xargs -P "$jobs" -I{} bash -c 'run_prop {}'
 sort "$out/result.txt"
 missed=$(grep -c "rc=0" "$out/result.txt")
 echo "seeded changes: $(wc -l < "$out/result.txt"), not reported: $missed"
-# after runs against mutated trees the generated models are those of the mutants: regenerate from /repo
-( cd "$verif" && /venv/bin/python -W ignore -B tools/translate/run.py --all > /dev/null 2>&1 )
 [ "$missed" = "0" ]
